@@ -74,8 +74,8 @@ pub fn c03_byte_imul() {
     // known finding: CF/OF are derived from the *previous* AH (set unless it was 0xFF); the
     // repository test test_unary_arithmetic pins that for 4 * -4, so it is not repaired.
     let kf_region = ((pre.ax >> 8) != 0xFF) != sig;
-    vassert_kf!("C03.byte_imul.CF", fl_of(post.flag).cf == sig, "KF-C03-byte-imul-CFOF", kf_region);
-    vassert_kf!("C03.byte_imul.OF", fl_of(post.flag).of == sig, "KF-C03-byte-imul-CFOF", kf_region);
+    vassert_kf!("C03.byte_imul.CF", fl_of(post.flag).cf == sig, KF_C03_byte_imul_CFOF, kf_region);
+    vassert_kf!("C03.byte_imul.OF", fl_of(post.flag).of == sig, KF_C03_byte_imul_CFOF, kf_region);
     vcover!("C03.byte_imul.cover.negative_fits", prod < 0 && !sig);
     frame!("byte_imul", pre, post, ax: true, dx: false);
     done(vm);
